@@ -325,7 +325,8 @@ pub mod threads {
             }
         };
         let n = case.n_pub as u64;
-        let win = case.window.clamp(1, 4) as i64;
+        // 2 * (window + 1) <= 8 < 10: even a forwarding task that is a whole scheduling round behind observer 1 stays inside the buffer
+        let win = case.window.clamp(1, 3) as i64;
         // number of the first publication that began after observer 2's subscribe call returned (u64::MAX: not subscribed)
         let o2_from = Arc::new(AtomicU64::new(u64::MAX));
         let next = Arc::new(AtomicU64::new(0));
@@ -455,7 +456,7 @@ pub mod threads {
         fn strategy(_tier: Tier) -> BoxedStrategy<ThreadsCase> {
             let kind = prop_oneof![6 => Just(SubKind::Idle), 2 => Just(SubKind::Dead), 1 => Just(SubKind::Observer2)];
             let sub = (prop_oneof![3 => Just(0u16), 3 => 0u16..20, 1 => 20u16..400], kind);
-            (20u8..80, 1u8..=4, proptest::collection::vec(prop_oneof![2 => Just(0u16), 2 => 0u16..30, 1 => 30u16..300], 1..6), proptest::collection::vec(sub, 8..100))
+            (20u8..80, 1u8..=3, proptest::collection::vec(prop_oneof![2 => Just(0u16), 2 => 0u16..30, 1 => 30u16..300], 1..6), proptest::collection::vec(sub, 8..100))
                 .prop_map(|(n_pub, window, pub_spin, subs)| ThreadsCase { n_pub, window, pub_spin, subs, rounds: 3 })
                 .boxed()
         }
@@ -480,7 +481,7 @@ pub mod threads {
             Outcome { verdict: Verdict::Pass, nontrivial: true, labels, trace: vec![] }
         }
         fn rule() -> &'static str {
-            "three OS threads, 3 rounds per case: the observers' current-thread runtime; a publisher thread publishing 20-80 numbered messages with generated busy-waits, never more than window+1 (2-5, below the default port's buffer of 10) publications ahead of what the observers have seen; a subscriber thread making 8-100 subscribe calls (an idle actor, a stopped actor, once a second observer) with generated busy-waits; then one final publication with nothing else running. Oracle on the observed history: observer 1 (subscribed before the first publication) receives exactly 0..n and the final one, in order, once; observer 2 receives, in order and once, at least every publication that began after its subscribe call returned. A round whose publisher window or final publication is not seen within 5 s is not judged (label); non-trivial = at least one judged round"
+            "three OS threads, 3 rounds per case: the observers' current-thread runtime; a publisher thread publishing 20-80 numbered messages with generated busy-waits, never more than window+1 (2-4, well below the default port's buffer of 10) publications ahead of what the observers have seen; a subscriber thread making 8-100 subscribe calls (an idle actor, a stopped actor, once a second observer) with generated busy-waits; then one final publication with nothing else running. Oracle on the observed history: observer 1 (subscribed before the first publication) receives exactly 0..n and the final one, in order, once; observer 2 receives, in order and once, at least every publication that began after its subscribe call returned. A round whose publisher window or final publication is not seen within 5 s is not judged (label); non-trivial = at least one judged round"
         }
     }
 }
